@@ -262,6 +262,12 @@ def normalise_shape(tree):
         return tree
     tree = _TestNormal().visit(tree)
     tree = _IfNormal().visit(tree)
+    # IOError and EnvironmentError are OSError (one class since Python 3.3): one spelling
+    bound = {x.id for x in ast.walk(tree) if isinstance(x, ast.Name) and isinstance(x.ctx, ast.Store)} | {a.arg for a in ast.walk(tree) if isinstance(a, ast.arg)}
+    if not bound & {"IOError", "OSError", "EnvironmentError"}:
+        for x in ast.walk(tree):
+            if isinstance(x, ast.Name) and x.id in ("OSError", "EnvironmentError") and isinstance(x.ctx, ast.Load):
+                x.id = "IOError"
     ast.fix_missing_locations(tree)
     return tree
 
@@ -730,6 +736,275 @@ class _Subst(ast.NodeTransformer):
         return self.value if node is self.target else node
 
 
+# ---------------------------------------------------------------------------------------------------------------------
+# call shapes: f(x, 2, 1) and f(x, ord=2, dim=1) are the same call; f(x, dim=0) restates a default.  For the library
+# functions below (signature: parameters in order, with their defaults where restating them is common) a call is brought
+# back to the shape the reference function spells it with - same number of positional arguments, same keywords - when
+# the arguments bound are the same; arguments that restate a documented default and that the reference does not pass are
+# dropped.  Aliases of one function (torch.concatenate is torch.cat) get the reference's spelling.
+_REQ = object()
+_SIGS = {
+    "torch.cat": [("tensors", _REQ), ("dim", 0)],
+    "torch.stack": [("tensors", _REQ), ("dim", 0)],
+    "torch.linalg.norm": [("A|input", _REQ), ("ord", None), ("dim", None), ("keepdim", False)],
+    "torch.fft.rfft": [("input", _REQ), ("n", None), ("dim", -1), ("norm", ("backward", None))],
+    "torch.fft.fft": [("input", _REQ), ("n", None), ("dim", -1), ("norm", ("backward", None))],
+    "torch.tensor": [("data", _REQ), ("dtype", None), ("device", None), ("requires_grad", False)],
+    "torch.load": [("f", _REQ), ("map_location", None)],
+    "torch.save": [("obj", _REQ), ("f", _REQ)],
+    "numpy.fft.rfft": [("a", _REQ), ("n", None), ("axis", -1), ("norm", ("backward", None))],
+    "numpy.fft.fft": [("a", _REQ), ("n", None), ("axis", -1), ("norm", ("backward", None))],
+    "numpy.fft.irfft": [("a", _REQ), ("n", None), ("axis", -1), ("norm", ("backward", None))],
+    "numpy.fft.ifft": [("a", _REQ), ("n", None), ("axis", -1), ("norm", ("backward", None))],
+    "numpy.concatenate": [("arrays", _REQ), ("axis", 0)],
+    "numpy.stack": [("arrays", _REQ), ("axis", 0)],
+    "numpy.pad": [("array", _REQ), ("pad_width", _REQ), ("mode", "constant")],
+    "numpy.roll": [("a", _REQ), ("shift", _REQ), ("axis", None)],
+    "numpy.load": [("file", _REQ), ("mmap_mode", None), ("allow_pickle", False), ("fix_imports", True), ("encoding", "ASCII")],
+    "numpy.moveaxis": [("a", _REQ), ("source", _REQ), ("destination", _REQ)],
+    "numpy.swapaxes": [("a", _REQ), ("axis1", _REQ), ("axis2", _REQ)],
+    "numpy.sum": [("a", _REQ), ("axis", None)],
+    "numpy.prod": [("a", _REQ), ("axis", None)],
+    "numpy.frombuffer": [("buffer", _REQ), ("dtype", _REQ), ("count", -1), ("offset", 0)],
+    "numpy.correlate": [("a", _REQ), ("v", _REQ), ("mode", "valid")],
+    "numpy.convolve": [("a", _REQ), ("v", _REQ), ("mode", "full")],
+    "numpy.isclose": [("a", _REQ), ("b", _REQ)],
+    "numpy.savez": None,
+    "warnings.warn": [("message", _REQ), ("category", ("UserWarning", None)), ("stacklevel", 1)],
+    "os.makedirs": [("name", _REQ), ("mode", 0o777), ("exist_ok", False)],
+    "open": [("file", _REQ), ("mode", "r")],
+    ".astype": [("dtype", _REQ), ("order", "K"), ("casting", "unsafe"), ("subok", True), ("copy", True)],
+    ".sum": [("axis|dim", _REQ)],
+    ".mean": [("axis|dim", _REQ)],
+    ".as_strided": [("size", _REQ), ("stride", _REQ)],
+    ".flip": [("dims", _REQ)],
+    ".reshape": None,
+    ".size": [("dim", _REQ)],
+    ".clamp_min": [("min", _REQ)],
+}
+_ALIASES = [{"torch.cat", "torch.concatenate", "torch.concat"}, {"numpy.concatenate", "numpy.concat"}, {"numpy.absolute", "numpy.abs"},
+            {"numpy.power", "numpy.pow"}]
+
+
+def _callee_text(func):
+    try:
+        t = ast.unparse(func)
+    except Exception:
+        return None
+    if t.startswith("np."):
+        t = "numpy." + t[3:]
+    return t
+
+
+def _sig_for(text):
+    if text in _SIGS:
+        return _SIGS[text]
+    for al in _ALIASES:
+        if text in al:
+            for a in al:
+                if a in _SIGS:
+                    return _SIGS[a]
+    if "." in text:
+        m = "." + text.rsplit(".", 1)[1]
+        if not text.startswith(("numpy.", "torch.", "os.", "warnings.")) and m in _SIGS:
+            return _SIGS[m]
+    return None
+
+
+def _call_key(func):
+    """how calls are matched between the reference and the analysed function: library functions by dotted name (aliases
+    folded), methods by attribute name"""
+    t = _callee_text(func)
+    if t is None:
+        return None
+    for al in _ALIASES:
+        if t in al:
+            return sorted(al)[0]
+    if t in _SIGS:
+        return t
+    if "." in t and not t.startswith(("numpy.", "torch.", "os.", "warnings.")):
+        return "." + t.rsplit(".", 1)[1]
+    return t
+
+
+def call_shapes(fn):
+    out = {}
+    for x in _own_nodes(fn):
+        if isinstance(x, ast.Call) and not any(isinstance(a, ast.Starred) for a in x.args):
+            k = _call_key(x.func)
+            if k is None or _sig_for(k if not k.startswith(".") else k) is None:
+                continue
+            shape = [_callee_text(x.func) if not k.startswith(".") else k, len(x.args), sorted(kw.arg for kw in x.keywords if kw.arg is not None),
+                     any(kw.arg is None for kw in x.keywords)]
+            out.setdefault(k, [])
+            if shape not in out[k]:
+                out[k].append(shape)
+    return out
+
+
+def _default_equal(node, default):
+    alts = default if isinstance(default, tuple) else (default,)
+    for d in alts:
+        if isinstance(node, ast.Constant) and type(node.value) is type(d) and node.value == d:
+            return True
+        if isinstance(node, ast.Constant) and node.value is None and d is None:
+            return True
+        if isinstance(d, str) and isinstance(node, ast.Name) and node.id == d:
+            return True
+    return False
+
+
+def restore_call_shapes(tree, modname):
+    if os.environ.get("PDSA_NO_ALPHA"):
+        return {}
+    ref = _ref()
+    applied = {}
+    for q, fn in functions_of(tree, modname):
+        shapes = ref.get("@calls:" + q)
+        if not shapes:
+            continue
+        for x in list(_own_nodes(fn)):
+            if not isinstance(x, ast.Call) or any(isinstance(a, ast.Starred) for a in x.args):
+                continue
+            k = _call_key(x.func)
+            if k is None or k not in shapes:
+                continue
+            sig = _sig_for(k)
+            if not sig:
+                continue
+            mine = [len(x.args), sorted(kw.arg for kw in x.keywords if kw.arg is not None), any(kw.arg is None for kw in x.keywords)]
+            text = _callee_text(x.func)
+            if any(sh[1:] == mine and (k.startswith(".") or sh[0] == text) for sh in shapes[k]):
+                continue
+            # bind
+            names = [p for p, _ in sig]
+            if len(x.args) > len(names):
+                continue
+            bound = {}
+            for (p, _), a in zip(sig, x.args):
+                bound[p] = a
+            okb = True
+            for kw in x.keywords:
+                if kw.arg is None:
+                    continue
+                hit = [p for p in names if kw.arg in p.split("|")]
+                if not hit or hit[0] in bound:
+                    okb = False
+                    break
+                bound[hit[0]] = kw.value
+            if not okb:
+                continue
+            star = [kw for kw in x.keywords if kw.arg is None]
+            for sh in shapes[k]:
+                rtext, npos, kws, rstar = sh
+                if bool(star) != bool(rstar):
+                    continue
+                want = set(names[:npos])
+                kwmap = {}
+                bad = False
+                for kwn in kws:
+                    hit = [p for p in names if kwn in p.split("|")]
+                    if not hit:
+                        bad = True
+                        break
+                    want.add(hit[0])
+                    kwmap[hit[0]] = kwn
+                if bad:
+                    continue
+                extra = set(bound) - want
+                defaults = dict(sig)
+                if set(bound) - extra != want:
+                    continue
+                if any(defaults[p] is _REQ or not _default_equal(bound[p], defaults[p]) for p in extra):
+                    continue
+                x.args = [bound[p] for p in names[:npos]]
+                x.keywords = [ast.keyword(arg=kwmap[p], value=bound[p]) for p in names if p in kwmap] + star
+                if not k.startswith(".") and rtext != text:
+                    try:
+                        x.func = ast.copy_location(ast.parse(rtext if not rtext.startswith("numpy.") or text.startswith("numpy.") else rtext, mode="eval").body, x.func)
+                        if text.startswith("numpy.") and ast.unparse(fn).find("np.") >= 0 and rtext.startswith("numpy."):
+                            x.func = ast.copy_location(ast.parse("np." + rtext[6:], mode="eval").body, x.func)
+                    except SyntaxError:
+                        pass
+                applied[q] = applied.get(q, 0) + 1
+                break
+    if applied:
+        ast.fix_missing_locations(tree)
+    return applied
+
+
+# ---------------------------------------------------------------------------------------------------------------------
+# new module-level look-up tables: NAME = {"a": X, "b": Y} that the reference module does not have and that nothing
+# mutates names a finite map.  `k in NAME` is `k in {"a", "b"}`; NAME["a"] is X; NAME[k] is X if k == "a" else (Y if k == "b"
+# else NAME[k]) - the last alternative keeps the KeyError of a missing key.
+def inline_new_tables(tree, modname):
+    if os.environ.get("PDSA_NO_ALPHA") or not _ref():
+        return {}
+    import copy
+    tables = {}
+    for st in tree.body:
+        if isinstance(st, ast.Assign) and len(st.targets) == 1 and isinstance(st.targets[0], ast.Name) and isinstance(st.value, ast.Dict) and st.value.keys:
+            nm = st.targets[0].id
+            if not is_new_module_name(modname, nm):
+                continue
+            if all(isinstance(k, ast.Constant) and isinstance(k.value, (str, int)) for k in st.value.keys) and all(_simple_arg(v) for v in st.value.values):
+                tables[nm] = st.value
+    if not tables:
+        return {}
+    for x in ast.walk(tree):
+        # any store / mutation / escape of the table disqualifies it
+        if isinstance(x, ast.Name) and x.id in tables and isinstance(x.ctx, (ast.Store, ast.Del)):
+            cnt = sum(1 for y in ast.walk(tree) if isinstance(y, ast.Name) and y.id == x.id and isinstance(y.ctx, (ast.Store, ast.Del)))
+            if cnt > 1:
+                tables.pop(x.id, None)
+    parents = {}
+    for n in ast.walk(tree):
+        for c in ast.iter_child_nodes(n):
+            parents[id(c)] = n
+    for x in ast.walk(tree):
+        if isinstance(x, ast.Name) and x.id in tables and isinstance(x.ctx, ast.Load):
+            par = parents.get(id(x))
+            ok = (isinstance(par, ast.Subscript) and par.value is x and isinstance(par.ctx, ast.Load)) or \
+                 (isinstance(par, ast.Compare) and len(par.ops) == 1 and isinstance(par.ops[0], (ast.In, ast.NotIn)) and par.comparators[0] is x)
+            if not ok:
+                tables.pop(x.id, None)
+    if not tables:
+        return {}
+    applied = {}
+
+    class T(ast.NodeTransformer):
+        def visit_Compare(self, node):
+            self.generic_visit(node)
+            if len(node.ops) == 1 and isinstance(node.ops[0], (ast.In, ast.NotIn)) and isinstance(node.comparators[0], ast.Name) and node.comparators[0].id in tables:
+                d = tables[node.comparators[0].id]
+                node.comparators[0] = ast.copy_location(ast.Set(elts=[copy.deepcopy(k) for k in d.keys]), node.comparators[0])
+                applied[node.comparators[0].__class__.__name__] = applied.get("Set", 0) + 1
+            return node
+
+        def visit_Subscript(self, node):
+            self.generic_visit(node)
+            if isinstance(node.value, ast.Name) and node.value.id in tables and isinstance(node.ctx, ast.Load):
+                d = tables[node.value.id]
+                key = node.slice
+                if isinstance(key, ast.Constant):
+                    for k, v in zip(d.keys, d.values):
+                        if type(k.value) is type(key.value) and k.value == key.value:
+                            applied["const"] = applied.get("const", 0) + 1
+                            return ast.copy_location(copy.deepcopy(v), node)
+                    return node
+                if _pure_expr(key):
+                    out = node
+                    for k, v in reversed(list(zip(d.keys, d.values))):
+                        out = ast.IfExp(test=ast.Compare(left=copy.deepcopy(key), ops=[ast.Eq()], comparators=[copy.deepcopy(k)]), body=copy.deepcopy(v), orelse=out)
+                    applied["var"] = applied.get("var", 0) + 1
+                    return ast.copy_location(out, node)
+            return node
+    T().visit(tree)
+    if applied:
+        ast.fix_missing_locations(tree)
+    return applied
+
+
 def build_reference(repo_pkg_dir, pkg="pydrobert.speech"):
     table = {}
     for fnm in sorted(os.listdir(repo_pkg_dir)):
@@ -744,6 +1019,9 @@ def build_reference(repo_pkg_dir, pkg="pydrobert.speech"):
             table[q] = s
             table["@ops:" + q] = operand_orders(fn)
             table["@params:" + q] = sorted(params_of(fn))
+            cs = call_shapes(fn)
+            if cs:
+                table["@calls:" + q] = cs
         table["@module:" + modname] = {"names": sorted(module_names(tree))}
         for cq, cnode in classes_of(tree, modname):
             table["@class:" + cq] = attr_signatures(cnode)
@@ -1075,7 +1353,57 @@ def inline_new_helpers(tree, modname):
         return applied
     cnode_of = {cq: cn for cq, cn in classes}
 
+    def _is_helper_call(val, owner_q, self_name):
+        if not isinstance(val, ast.Call):
+            return False
+        if isinstance(val.func, ast.Name):
+            return (None, val.func.id) in helpers
+        if isinstance(val.func, ast.Attribute) and isinstance(val.func.value, ast.Name) and owner_q is not None:
+            if val.func.value.id == self_name or val.func.value.id == owner_q.rsplit(".", 1)[-1]:
+                return (owner_q, val.func.attr) in helpers
+        return False
+
+    def hoist(caller, owner_q, self_name):
+        """a helper call that is the first thing a statement evaluates, but not the statement's whole value (the iterable of a
+        comprehension, a leading argument of a call), is given a name of its own first, so that it can be spliced"""
+        for blk in _blocks(caller):
+            i = 0
+            while i < len(blk):
+                st = blk[i]
+                i += 1
+                if not isinstance(st, (ast.Assign, ast.Return, ast.Expr)) or st.value is None:
+                    continue
+                val = st.value
+                slot = None
+                if isinstance(val, (ast.ListComp, ast.SetComp, ast.GeneratorExp)) and _is_helper_call(val.generators[0].iter, owner_q, self_name):
+                    slot = (val.generators[0], "iter")
+                elif isinstance(val, ast.Call) and not _is_helper_call(val, owner_q, self_name) and _simple_arg(val.func):
+                    for j, a in enumerate(val.args):
+                        if _is_helper_call(a, owner_q, self_name):
+                            slot = (val.args, j)
+                            break
+                        if not _simple_arg(a):
+                            break
+                if slot is None:
+                    continue
+                counter[0] += 1
+                names_ = {x.id for x in ast.walk(caller) if isinstance(x, ast.Name)}
+                tmp = "_hoisted_%d" % counter[0]
+                while tmp in names_:
+                    tmp += "_"
+                holder, key = slot
+                call = holder[key] if isinstance(holder, list) else getattr(holder, key)
+                new_st = ast.copy_location(ast.Assign(targets=[ast.Name(id=tmp, ctx=ast.Store())], value=call), st)
+                ref_ = ast.copy_location(ast.Name(id=tmp, ctx=ast.Load()), call)
+                if isinstance(holder, list):
+                    holder[key] = ref_
+                else:
+                    setattr(holder, key, ref_)
+                blk.insert(i - 1, new_st)
+                i += 1
+
     def splice(caller_q, caller, owner_q, self_name):
+        hoist(caller, owner_q, self_name)
         changed = True
         rounds = 0
         while changed and rounds < 6:
